@@ -28,4 +28,17 @@ def run (L : Nat) : W → List Nat → List Bool
   | _, [] => []
   | w, i :: is => (step L w i).2 :: run L (step L w i).1 is
 
+/-- which of the `n` consecutive counters `lo, lo+1, …` have been accepted (one pass over the history) -/
+def seenIn (w : W) (lo n : Nat) : Array Bool :=
+  w.foldl (fun a c => if lo ≤ c && c < lo + n then a.set! (c - lo) true else a) (Array.replicate n false)
+
+/-- the acceptance rule for the `n` consecutive counters `lo, lo+1, …`, in one pass over the history:
+counter `c` is accepted iff it is not in the history and `hi < c + L` (`Lemmas.Bits.accepts_eq`: the
+three-way disjunction of `accepts` is `hi < c + L`). Used by the `scan` oracle, where asking
+`accepts` for each of 8192 counters separately would be quadratic. -/
+def scan (L : Nat) (w : W) (lo n : Nat) : Array Bool :=
+  let h := hi w
+  let seen := seenIn w lo n
+  (Array.range n).map (fun k => !seen[k]! && decide (h < lo + k + L))
+
 end Nebula.Spec.Window
